@@ -165,12 +165,13 @@ TOKCFGS = [
     TokCfg(
         "words+keywords+comments",
         r"""(?P<SPACE>\s+)|(?P<COMMENT>\#[^#\n]*\#)|(?P<W>[a-z]+)|(?P<NUM>[0-9]+)|(?P<SEMI>;)|"(?P<STR>[^"]*)\"""",
-        ['WORD', 'IF', 'DO', 'n', ';', 'STR'],
-        {'WORD': ['x', 'yy', 'iff', 'dodo', 'i', 'f'], 'IF': ['if'], 'DO': ['do'],
+        ['WORD', 'IF', 'DO', 'n', ';', 'STR', 'PRAGMA'],
+        {'WORD': ['x', 'yy', 'iff', 'dodo', 'i', 'f'], 'IF': ['if'], 'DO': ['do'], 'PRAGMA': ['#pragma#'],
          'n': ['0', '17', '007'], ';': [';'], 'STR': ['""', '"if"', '"a b"', '"#x#"', '"p\x0cq"', '"u\u2028v if"']},
         [" ", "\n", " # if do ; # ", "  ", "\n\n", " #1# #2# ", " #see\x0bpage 2 if# ", "\x0c"],
         synonyms={'NUM': 'n', 'SEMI': ';', 'W': 'WORD'},
-        keywords={('WORD', 'if'): 'IF', ('WORD', 'do'): 'DO'},
+        # (one keyword is keyed on a token name that is skipped by default: that comment is a real token)
+        keywords={('WORD', 'if'): 'IF', ('WORD', 'do'): 'DO', ('COMMENT', '#pragma#'): 'PRAGMA'},
     ),
     TokCfg(
         "explicit-skip+comment-as-token",
@@ -189,6 +190,15 @@ TOKCFGS = [
         [""],
         synonyms={'A': 'a', 'B': 'b'},
         skip_tokens=set(),
+    ),
+    TokCfg(
+        "chained-synonyms",
+        # upper-case names are called WORD, what the pattern calls WORD is called CONST
+        r"(?P<SPACE>\s+)|(?P<NAME>[A-Z]+)|(?P<WORD>[a-z]+)|(?P<NUM>[0-9]+)|(?P<EQ>=)",
+        ['WORD', 'CONST', 'n', '='],
+        {'WORD': ['A', 'XY'], 'CONST': ['a', 'xy'], 'n': ['1', '20'], '=': ['=']},
+        [" ", "\n", "  "],
+        synonyms={'NAME': 'WORD', 'WORD': 'CONST', 'NUM': 'n', 'EQ': '='},
     ),
     TokCfg(
         "nine-letters",
